@@ -64,45 +64,24 @@ impl Remover {
         // PendingMarker  x------------x   |    x------------x
         // ---------------------------------------------------------
         let mut merged_ranges = Vec::new();
-        let mut range_cursor = 0;
+        let mut ranges_pending = ranges_pending.into_iter().peekable();
         for (range, idx) in ranges {
-            let item = {
-                // Pop item from pending_ranges
-                if range_cursor < ranges_pending.len() {
-                    let (pending_range, idx) = &ranges_pending[range_cursor];
-
-                    if pending_range.start < range.end {
-                        range_cursor += 1;
-
-                        let can_squash = range.contains(&pending_range.start)
-                            && range.contains(&pending_range.end);
-                        if can_squash {
-                            None
-                        } else {
-                            Some((pending_range.clone(), *idx))
-                        }
-                    } else {
-                        None
-                    }
+            while let Some((pending_range, _)) = ranges_pending.peek() {
+                if pending_range.start < range.start {
+                    // The pending range precedes (or encloses) the removal range.
+                    merged_ranges.push((ranges_pending.next().unwrap(), false));
+                } else if pending_range.start < range.end {
+                    // The pending range is inside the removal range.
+                    ranges_pending.next();
                 } else {
-                    None
+                    break;
                 }
-            };
-
-            if let Some(item) = item {
-                merged_ranges.push((item, false));
             }
 
-            merged_ranges.push(((range.clone(), idx), true));
+            merged_ranges.push(((range, idx), true));
         }
 
-        if range_cursor < ranges_pending.len() {
-            merged_ranges.extend(
-                ranges_pending[range_cursor..ranges_pending.len()]
-                    .iter()
-                    .map(|v| (v.clone(), false)),
-            );
-        }
+        merged_ranges.extend(ranges_pending.map(|v| (v, false)));
 
         merged_ranges
     }
